@@ -103,3 +103,5 @@ def run(ctx):
     ctx.rule("R6.5", "swap-remove: in a forward counted loop of MIP_Problem that shrinks its bound and moves the last row into the current position, the index is stepped back on every path before the increment (a tableau row swapped in while erasing the artificials must itself be examined, else its equality is silently dropped in phase 2)")
     k = idioms.swap_remove(ctx, "R6.5", [f for f in fx.functions if f.clsn == "MIP_Problem" and not f.flag("pattern")], "its artificial variable stays basic and its row is no longer enforced")
     ctx.floor("R6.5", k, 1, "swap-remove loops in MIP_Problem")
+    from rules import dirty
+    dirty.run(ctx, "R6.6", fx, lambda f: f.file.endswith("MIP_Problem.cc"), 28, "judged on MIP_Problem.cc")
